@@ -99,8 +99,9 @@ def find_labels():
     return _LABELS
 
 
-LABEL_NAMES = ["should_exit_set", "after_should_exit", "before_pop", "liveness_poll", "flag_poll", "before_sleep",
-               "status", "before_save", "omen_flag_check", "omen_count", "omen_save", "is_alive", "input", "woke"]
+LABEL_NAMES = ["should_exit_set", "after_should_exit", "before_pop", "flag_poll", "before_sleep", "status", "before_save",
+               "omen_flag_check", "omen_count", "omen_save", "omen_next_guess", "omen_print", "after_check", "before_expand",
+               "input", "woke", "sleep"]
 
 
 def gen_world(t):
@@ -144,7 +145,7 @@ def gen_schedule(t, est_steps):
 
 
 SYNC_LABELS = ["before_pop", "flag_poll", "after_check", "before_expand", "after_expand", "omen_next_guess", "omen_print",
-               "omen_count", "omen_flag_check", "omen_loop_test", "return_num_guesses", "liveness_poll"]
+               "omen_count", "omen_flag_check", "omen_loop_test", "return_num_guesses"]
 
 
 def gen_directed(t, total):
@@ -236,7 +237,11 @@ def judge(res, U, Ulines, r, wr, flags, tape, prior_oracle=None):
     for e in U:
         end = e["first_line"] + len(e["lines"])
         if end > g_s:
-            bound = min(end, g_s + 1) if resume.is_m(e["pt"]) else end
+            # the tool announces "Will exit after finishing processing current pre-terminal"; stopping earlier,
+            # between two Markov guesses, is allowed but not demanded
+            bound = end
+            if resume.is_m(e["pt"]) and len(S) > g_s + 1:
+                res.stats["markov_quit_not_at_next_guess"] += 1
             # flag set exactly at the start of e, before e was popped/checked: e may still be skipped
             break
     if c > bound and c != total:
@@ -312,7 +317,7 @@ def run_one(tape, tier, prop):
                 cases.append(gen_directed(t, total))
             else:
                 cases.append((gen_script(t, U, total), gen_schedule(t, total * 12),
-                              t.choice([1e-6, 1e-4, 1e-3, 0.02, 0.2])))
+                              t.choice([1e-4, 1e-3, 0.02, 0.05, 0.2, 0.2])))
     sigs = []
     # variant: the scheduled process is a RESUMED one (a stand-in quit inside a Markov level came first), so
     # that status requests meet the stand-in item restore_omen installs and quits can land in the remainder
